@@ -254,7 +254,17 @@ def check_C04(ctx):
     rules_header.rules_G(u, sub)
     rules_header.rules_G4(u, sub)
     for f in sub.findings:
-        if any(x in f.key for x in ("hash", "read#4", "read#5", "hashes", "unchecked", "value-before-check", "order", "ANCHOR", "paths")) or f.rule in ("G4", "ANCHOR"):
+        k = f.key
+        # only what concerns the two hash words: their acceptance rows, their rejecting rows, and the
+        # dominance of both comparisons over the value read
+        hashrow = (":read#4" in k or ":read#5" in k or k.endswith("type_hash") or k.endswith("align_hash") or "hashes" in k or "align-offset" in k)
+        if f.rule == "G2" and "reject-prefix" in k:
+            continue
+        if f.rule in ("G1", "G2", "G5") and hashrow:
+            rep.findings.append(f)
+        elif f.rule == "G4" and ("unchecked:read#4" in k or "unchecked:read#5" in k or "value-before-check" in k):
+            rep.findings.append(f)
+        elif f.rule == "ANCHOR":
             rep.findings.append(f)
     rep.obligations += sub.obligations
     rep.discharged += sub.discharged
